@@ -99,7 +99,8 @@ def cg(
 
         # update estimates of the solution and the residual
         (operator_conjugate_vector,) = operator(conjugate_vector)
-        alpha = residual_norm_squared / (torch.vdot(conjugate_vector.flatten(), operator_conjugate_vector.flatten()))
+        # <p, Hp> is real for self-adjoint H; a complex division of subnormal numbers would overflow
+        alpha = residual_norm_squared / (torch.vdot(conjugate_vector.flatten(), operator_conjugate_vector.flatten())).real
         solution = solution + alpha * conjugate_vector
         residual = residual - alpha * operator_conjugate_vector
 
